@@ -57,6 +57,9 @@ def worker(blocks):
             continue
         results = [('direct', calls.direct_call(case['f'], case['args'], 'native'), None),
                    ('wrapped', calls.direct_call(case['f'], case['args'], 'wrapped'), None)]
+        if case['f'].startswith('OP_') and any(a['t'] == 'num' for a in case['args']):
+            # numbers as numpy scalars (what LOG10, EXP, COS ... hand on to an operator)
+            results.append(('numpy', calls.direct_call(case['f'], case['args'], 'numpy'), None))
         o, stored, text = calls.formula_call(case['f'], case['args'])
         if o is not None:
             results.append(('formula', o, text))
